@@ -1,6 +1,6 @@
 (* proofs/MerkleProofs.v - lemmas about model/Merkle.v against spec/MerkleSpec.v (C04, C10). *)
 From Coq Require Import ZArith List Bool Lia Sorting.Sorted.
-From TF Require Import Merkle MerkleSpec.
+From TF Require Import Merkle MerkleSpec MerkleGen.
 Import ListNotations.
 Open Scope Z_scope.
 Ltac Zify.zify_post_hook ::= Z.div_mod_to_equations.
@@ -2181,3 +2181,11 @@ Lemma auth_indices_full (m : mmode) (n : Z) (idxs : list Z) :
 Proof.
   intros Hn Hn2 Hr. split; [apply auth_indices_eq; assumption|]. apply minimal_list_spec; assumption.
 Qed.
+
+(* ---------------------------------------------------------------------------------------------- *)
+(* the hand-written model's constants and variant flags agree with what the translator reads from the
+   current source (coq/gen/MerkleGen.v is regenerated on every run)                                 *)
+Lemma model_matches_source :
+  CUR_LEAF_FIXED = GEN_LEAF_CHECKED_ADD /\ CUR_CUTOFF_FIXED = GEN_CUTOFF_LOOP_GUARDS_ZERO /\
+  MAX_TREE_HEIGHT = GEN_MAX_TREE_HEIGHT /\ GEN_ROOT_INDEX = 1 /\ GEN_DEFAULT_PARALLELIZATION_CUTOFF = 256.
+Proof. repeat split; reflexivity. Qed.
